@@ -4,6 +4,7 @@ import (
 	"fmt"
 	"go/token"
 	"sort"
+	"strings"
 
 	"golang.org/x/tools/go/ssa"
 
@@ -23,6 +24,8 @@ func init() {
 
 func runC17(c *Ctx) {
 	c.Rule("C17.O7", "E1-atomic", "the overflow test and the enqueue it guards are one critical section of Conn.mux: no unlock between them, not even inside a callee that locks again before it returns (check-then-act on Conn.left)", 2)
+	c.Rule("C17.O8", "E4,E7b", "a write that fits is accepted: write() and writev() return a possibly non-nil error only on the overflow edge, behind the tests that the error is neither EAGAIN nor EINTR, or for a non-stream connection type; a full socket is a reason to queue, not to refuse", 4)
+	c17AcceptsWhatFits(c)
 	c.Rule("C17.O1", "E4", "overflow(len of whole input) dominates every kernel write and enqueue in write/writev; its true edge returns a non-nil overflow error without writing or queuing", 2)
 	c.Rule("C17.O2", "E8", "overflow(n) == (MaxWriteBufferSize > 0 && left+n > MaxWriteBufferSize), decided on the formula extracted from the branch conditions", 1)
 	c.Rule("C17.O3", "E4", "enqueue adds len(buf) to left exactly once on every path; flush subtracts the syscall count n by which it advances entry.offset, under n>0", 2)
@@ -420,4 +423,52 @@ func c17Readers(c *Ctx, ob string) {
 	sort.Strings(extra)
 	c.Cond(len(extra) == 0 && len(readers) > 0, ob, "readers of nbio.Conn.left", "", fmt.Sprintf("%v", sortedKeys(readers)),
 		fmt.Sprintf("Conn.left is read by %v: it counts buffered bytes only (a queued Sendfile range adds nothing to it), so using it to decide whether something is queued sends data around a queued file, skips a re-arm, or skips the release of queued entries", extra))
+}
+
+// c17AcceptsWhatFits: O8.  "Socket full" (EAGAIN) and "interrupted" (EINTR)
+// are not failures of a stream write: the bytes fit the budget (the overflow
+// test passed), so they are queued and the call succeeds.  A return that may
+// carry such an errno refuses a write that fits.
+func c17AcceptsWhatFits(c *Ctx) {
+	for _, name := range []string{"(*nbio.Conn).write", "(*nbio.Conn).writev"} {
+		fn := c.Fn("C17.O8", name)
+		if fn == nil {
+			continue
+		}
+		fi := c.P.Info(fn)
+		var ov ssa.Value
+		for _, cs := range c.P.CallsNamed(fn, "(*nbio.Conn).overflow") {
+			ov = cs.Value()
+		}
+		n := 0
+		for _, r := range fi.Returns() {
+			e, kind := c.retErr(fi, r)
+			if kind == "nil" {
+				continue
+			}
+			n++
+			key := fmt.Sprintf("%s: error-return#%d", c.P.FuncName(fn), n)
+			re := ir.Resolve(e)
+			onOverflow := ov != nil && fi.HasFact(r, func(ft ir.Fact) bool {
+				cnd, t := ir.StripNot(ft.Cond, ft.Truth)
+				return ir.Resolve(cnd) == ir.Resolve(ov) && t
+			})
+			notTemp := map[string]bool{}
+			nonStream := false
+			for _, ft := range fi.Facts(r) {
+				if x, target, is, ok := c.P.ErrorsIsTest(ft.Cond, ft.Truth); ok && !is && ir.Resolve(x) == re {
+					notTemp[target] = true
+				}
+				if cmp, ok := ir.DecodeIntCmp(ft.Cond); ok && c.P.LoadedField(cmp.Expr) == "nbio.Conn.typ" {
+					nonStream = true
+				}
+			}
+			ok := onOverflow || (notTemp["EAGAIN"] && notTemp["EINTR"]) || nonStream || c.isNonNilErrorValue(e) && !strings.Contains(c.P.Desc(re), "syscall")
+			c.Cond(ok, "C17.O8", key, c.Pos(r), "overflow edge, or not EAGAIN/EINTR, or a datagram type",
+				"the return at "+c.Pos(r)+" may hand EAGAIN or EINTR to the caller although the input passed the overflow test: on a full socket with an empty queue a write that fits the budget is refused (nothing is queued, no write interest is set)")
+		}
+		if n == 0 {
+			c.Unres("C17.O8", fnKey(c.P, fn, "error returns"), "no error return found")
+		}
+	}
 }
